@@ -42,6 +42,10 @@ CHECKS = {
    "bounded exhaustive enumeration of PE layouts (format x e_lfanew x <=3 sections in every file order x raw size x gaps x header slack x trailing length 0..9 x certificate table) and, per layout, of every byte position (flip), differential against a from-the-specification digest; exhaustive (offset,length) check of the positional reader",
    "Every layout of the product and every single-byte mutant of it is parsed and hashed by the real library and compared with an independent implementation of the Microsoft algorithm on raw bytes; this decides both digest equality and exactly which bytes are covered/excluded. Exhaustive within the stated layout bound.",
    "Small-scope hypothesis beyond 3 sections / 9 trailing bytes / the size alphabet; refpe trusted (it reproduces the digests pinned in the repository's tests, checked in the fixtures unit); mutants the reference calls ill-formed are out of the property's domain and skipped.", "DESIGN.md section 4 C01"),
+ "C04": ("exploration", "E-shape",
+   "bounded exhaustive derivation of adversarial blobs from valid signatures of three producers (every byte position x every bit / every value; a catalogue of structural DER edits) x 3 verifying certificates x 3 entry points, one-directional differential against a from-the-RFC verifier",
+   "Every derived blob is verified by the real library through each entry point against the right certificate, a foreign one and one with the same issuer+serial but another key; success is only allowed when an independent verifier confirms the three conditions of the statement; any panic is a violation. Exhaustive over the derivation families.",
+   "Soundness is relative to the enumerated families (single-byte rewrites and the edit catalogue), not all forgeries; RSA/SHA-256 and refp7 trusted; OpenSSL seeds are produced at check time (signing time varies, structure does not).", "DESIGN.md section 4 C04"),
 }
 
 NOT_YET = "check not built yet in this round (planned, see DESIGN.md section 4); no claim is made"
